@@ -709,7 +709,9 @@ class Engine:
             return [(s, SBool(t if isinstance(op, ast.In) else z3.Not(t))) if s.exc is None else (s, None) for s, t in res]
         # ordering
         if isinstance(a, SStr) and isinstance(b, SStr):
-            lt = {ast.Lt: lambda: a.t < b.t, ast.LtE: lambda: a.t <= b.t, ast.Gt: lambda: b.t < a.t, ast.GtE: lambda: b.t <= a.t}
+            le = self.models.str_le
+            lt = {ast.Lt: lambda: z3.And(le(st, a.t, b.t), a.t != b.t), ast.LtE: lambda: le(st, a.t, b.t),
+                  ast.Gt: lambda: z3.And(le(st, b.t, a.t), a.t != b.t), ast.GtE: lambda: le(st, b.t, a.t)}
             return [(st, SBool(lt[type(op)]()))]
         if isinstance(a, SOpaque) or isinstance(b, SOpaque):
             return [(st, SBool(z3.Bool(sym.fresh_name("opqcmp"))))]
@@ -812,10 +814,14 @@ class Engine:
             if isinstance(w, SRef):
                 st.assume(z3.And(w.t >= 0, w.t < st.heap.next_ref))
                 w.origin = attr  # provenance, used by the ownership ghost of `owning` dict fields
+                self.typed_container(st, w)
             return [(st, w)]
         if isinstance(v, SRec):
             if attr in v.fields:
-                return [(st, v.fields[attr])]
+                w = v.fields[attr]
+                if isinstance(w, SRef):
+                    self.typed_container(st, w)
+                return [(st, w)]
             if attr in v.ci.methods:
                 return [(st, self.bound_method(v.ci, attr, v))]
             if attr in v.ci.class_attrs:
@@ -869,12 +875,38 @@ class Engine:
             # attribute / method of a value from outside the repository (socket, poller ...): calls are logged as events
             label = f"{v.label or 'opaque'}.{attr}"
 
-            def ext(eng, s, args, kw, label=label):
+            def ext(eng, s, args, kw, label=label, attr=attr):
                 eng.externals_used.add(label)
-                s.log_event(label, [a for a in args if not isinstance(a, (SFunc, SBuiltin))])
-                return [(s, SOpaque(label=label + "()"))]
+                s.log_event(attr, [a for a in args[1:] if not isinstance(a, (SFunc, SBuiltin))])
+                return [(s, eng.external_result(s, attr, label))]
             return [(st, SBuiltin(label, ext, self_val=v))]
         raise Unsupported(f"attribute {attr} on {type(v).__name__} at {self.loc(node)}")
+
+    def typed_container(self, st, w):
+        """well-typedness of stored data, stated so that it is usable under quantifiers: the keys (elements) of a container read
+        from a field annotated dict[K, V] / set[K] / list[V] carry the tag of K (V).  Only tags are constrained (shallow)."""
+        ty = w.ty
+        if ty.kind not in ("dict", "set", "list"):
+            return
+        key = "typed:" + z3.simplify(w.t).sexpr() + ":" + ty.kind
+        if st.ghost.get(key):
+            return
+        st.ghost[key] = True
+        simple = ("int", "str", "bool", "class", "none")
+        if ty.kind in ("dict", "set"):
+            kty = ty.k if ty.kind == "dict" else ty.v
+            k = sym.fresh_val("tk")
+            dom = st.dom(w.t)
+            if kty.kind in simple:
+                st.assume(z3.ForAll([k], z3.Implies(z3.Select(dom, k), sym.type_constraint(k, kty, self.reg, shallow=True)), patterns=[z3.Select(dom, k)]))
+            if ty.kind == "dict" and ty.v.kind in simple + ("dict", "set", "list"):
+                m = st.cmap(w.t)
+                st.assume(z3.ForAll([k], z3.Implies(z3.Select(dom, k), sym.type_constraint(z3.Select(m, k), ty.v, self.reg, shallow=True)), patterns=[z3.Select(m, k)]))
+        else:
+            i = sym.fresh_int("ti")
+            sq = st.cseq(w.t)
+            if ty.v.kind in simple:
+                st.assume(z3.ForAll([i], z3.Implies(z3.And(i >= 0, i < st.clen(w.t)), sym.type_constraint(z3.Select(sq, i), ty.v, self.reg, shallow=True)), patterns=[z3.Select(sq, i)]))
 
     def _owner_of(self, ci, attr):
         """name of the class that actually defines method attr (for contract keys)"""
@@ -1015,7 +1047,45 @@ class Engine:
             return [(st, SOpaque(label=(fv.label or "opaque") + "()"))]
         raise Unsupported(f"call of {fv!r} at {self.loc(node)}")
 
+    def external_result(self, st, attr, label=""):
+        """result of a call that leaves the repository: typed by the sidecar's external_returns table (else opaque) and
+        remembered so that contracts can name it through `observes`"""
+        from .verify import symbolic_value
+        texpr = self.contracts.external_returns.get(attr) if self.contracts is not None else None
+        if texpr is not None:
+            tmod = self.fe.module(self.contracts.ext_module) if self.contracts.ext_module else st.frames[0].module
+            ty = self.fe.parse_type(texpr, tmod)
+            if ty.kind in ("list", "dict", "set"):
+                # a container handed out by the outside world is a fresh object (it aliases nothing the repository holds);
+                # its contents are whatever the heap arrays say at the new index, i.e. unconstrained
+                r = st.alloc()
+                v = SRef(r, ty)
+                st.assume(st.clen(r) >= 0)
+                if ty.kind != "list":
+                    st.assume(st.container_wf(r))
+            else:
+                v = symbolic_value(self, st, f"ext_{attr}", ty)
+        else:
+            v = SOpaque(label=(label or attr) + "()")
+        st.ghost.setdefault("obs:" + attr, v)
+        return v
+
+    _pure_fns: dict = {}
+
+    def pure_call(self, st, qual, args):
+        texpr = self.contracts.pure_functions[qual]
+        key = (qual, len(args))
+        if key not in self._pure_fns:
+            self._pure_fns[key] = z3.Function("pure_" + qual.replace(":", "_").replace(".", "_"), *([Val] * len(args)), Val)
+        t = self._pure_fns[key](*[a.val() for a in args])
+        tmod = self.contracts.pure_modules.get(qual, qual.split(":")[0])
+        ty = self.fe.parse_type(texpr, self.fe.module(tmod)) if texpr is not None else ANY
+        st.assume(sym.type_constraint(t, ty, self.reg, shallow=True))
+        return SAny(t, ty) if ty.kind in ("union", "any") else sym.from_val(t, ty, self.reg)
+
     def call_function(self, st, fv: SFunc, args, kwargs, node=None):
+        if self.contracts is not None and fv.qual in self.contracts.pure_functions:
+            return [(st, self.pure_call(st, fv.qual, list(args)))]
         # contract / inline decision
         if getattr(fv, "is_property", False):
             pass
